@@ -63,7 +63,7 @@ impl Prop for Repair {
         "fault_enumeration"
     }
     fn rule(&self) -> String {
-        let common = "run = one seeded valid writer history (as C01, with flushes, block-lookalike content on some runs, 65..200 files with long-lived open ones on one run in 20, 17..1000 recipients on one encrypted run in 20) written to the simulated sink; crash fault = the sink dies after n accepted bytes, i.e. the stored image is the first n bytes. On s0/s1 images up to 2600 bytes EVERY n in 0..=len is taken (exhaustive in the crash point for the workloads visited); on larger images windows of +-20 bytes around every structural anchor of the layout map (header end, every chunk payload/tag edge, every compressed-block edge, every file-layer block, end marker, index) plus a seeded sample; the first 24 (thorough: 240) runs use production constants and one content block longer than the 8 MiB repair copy buffer, and SEARCH the crash point (bisection on the recovered length) at which the bytes recovered from that block end exactly on the buffer edge, then judge the 7 cuts around it. The run after those (thorough: the six after) holds 33000..70000 tiny files - ids beyond 2^15 and 2^16 - and is repaired undamaged and at three seeded cuts. One scaled run in 12 takes the same files in an archive of the INDEPENDENT writer (file ids not 0,1,2.. but from 1, large, or decreasing; an index listing every block; empty content blocks; a trailing empty compressed block). Each cut image is repaired in authenticated and unauthenticated mode through the simulated source with a step budget, and the produced archive is read back with the normal reader. evaluations = repairs judged; distinct_nontrivial = distinct (variant, layers, mode, region class of the cut, anchor?, stop status, unfinished?) signatures.";
+        let common = "run = one seeded valid writer history (as C01, with flushes, block-lookalike content on some runs, 65..200 files with long-lived open ones on one run in 20, 17..1000 recipients on one encrypted run in 20) written to the simulated sink; crash fault = the sink dies after n accepted bytes, i.e. the stored image is the first n bytes. On s0/s1 images up to 2600 bytes EVERY n in 0..=len is taken (exhaustive in the crash point for the workloads visited); on larger images windows of +-20 bytes around every structural anchor of the layout map (header end, every chunk payload/tag edge, every compressed-block edge, every file-layer block, end marker, index) plus a seeded sample; the first 24 (thorough: 240) runs use production constants and one content block longer than the 8 MiB repair copy buffer, and SEARCH the crash point (bisection on the recovered length) at which the bytes recovered from that block end exactly on the buffer edge, then judge the 7 cuts around it. The run after those (thorough: the six after) holds 33000..70000 tiny files - ids beyond 2^15 and 2^16 - and is repaired undamaged and at three seeded cuts. One scaled run in 12 takes the same files in an archive of the INDEPENDENT writer (file ids not 0,1,2.. but from 1, large, or decreasing; an index listing every block; empty content blocks; a trailing empty compressed block). Each cut image is repaired in authenticated and unauthenticated mode through the simulated source (complete reads; on one scaled run in six short reads on every repair) with a step budget, into an archive without layers (one run in four: compressed and/or encrypted), and the produced archive is read back with the normal reader. evaluations = repairs judged; distinct_nontrivial = distinct (variant, layers, mode, region class of the cut, anchor?, stop status, unfinished?) signatures.";
         if self.id == "C02" {
             format!("{common} Clauses: no panic/budget overrun; for n >= header length from_config and convert_to_archive return Ok; repaired archive opens and reads back with consistent size/hash; names subset of original; every recovered file is a prefix of the original; files not reported unfinished are complete; EndOfOriginalArchiveData only if everything was recovered.")
         } else {
@@ -74,7 +74,7 @@ impl Prop for Repair {
         vec![
             "every crash state of a streaming writer is a prefix of the bytes the finished stream would contain (the sink is append-only and the writer deterministic), so cutting the finished image covers cuts of unfinished writers".into(),
             "scaled variants keep the production order/divisibility relations of the size constants".into(),
-            "the output archive of repair is written without layers to an in-memory fault-free sink".into(),
+            "the output archive of repair is written to an in-memory fault-free sink (without layers on three runs in four, compressed and/or encrypted on the fourth)".into(),
         ]
     }
     fn runs(&self, tier: Tier) -> u64 {
@@ -238,6 +238,27 @@ impl Prop for Repair {
         if !big && !crowd_of_files && rng.chance(1, 12) {
             case.params.insert("foreign".into(), 1);
         }
+        if rng.chance(1, 4) {
+            case.params.insert("out_layers".into(), rng.range(1, 3) as i64);
+            // (setting up the output layers for every repaired cut costs milliseconds: fewer cuts)
+            if !case.params.contains_key("full_sweep_limit") {
+                case.params.insert("full_sweep_limit".into(), 500);
+                case.params.insert("max_anchors".into(), 12);
+                case.params.insert("samples".into(), 25);
+                case.params.insert("window".into(), 6);
+            }
+        }
+        if !big && rng.chance(1, 6) {
+            // every repair of this run reads through a source that returns short reads
+            let mut r = ReadCfg::for_cfg(&case.cfg);
+            r.sched = Sched::make(&mut rng, false);
+            case.rcfg = Some(r);
+            // (a repair that reads byte by byte costs many seam calls: fewer cuts)
+            case.params.insert("full_sweep_limit".into(), 300);
+            case.params.insert("max_anchors".into(), 10);
+            case.params.insert("samples".into(), 20);
+            case.params.insert("window".into(), 4);
+        }
         case
     }
     fn exec(&self, case: &Case, ctx: &mut Ctx) -> Vec<Violation> {
@@ -269,8 +290,18 @@ impl Prop for Repair {
         let cuts = cut_points(case, len, lay.as_ref(), &mut crng);
         let modes: &[bool] = if case.cfg.enc() { &[true, false] } else { &[true] };
         let only_mode = case.param("only_auth", -1);
-        let ocfg = out_cfg(&case.cfg.variant);
-        let plain_rcfg = ReadCfg { keys: vec![], sched: Sched::Full, budget: u64::MAX / 2, error_at_read: None, spill_path: None, explicit_auth_mode: false };
+        // the archive that repair writes: without layers mostly; one run in four compressed and/or encrypted (own keys)
+        let mut ocfg = out_cfg(&case.cfg.variant);
+        let ol = case.param("out_layers", 0) as u8 & 3;
+        if ol != 0 {
+            ocfg.layers = ol;
+            // (levels 0/1: a compressor is set up for every repaired cut, the higher levels cost milliseconds each)
+            ocfg.level = (case.param("cut_seed", 0) % 2) as u32;
+            ocfg.recipients = usize::from(ol & 1 != 0);
+            ocfg.key_seed = 0x0E0E;
+            ocfg.rng_seed = if vc.hooks { 0x5EED } else { 0 };
+        }
+        let plain_rcfg = ReadCfg::for_cfg(&ocfg);
         // ground truth pieces (no compression only)
         let stream_len = len - hlen;
         for &auth in modes {
